@@ -200,6 +200,9 @@ func verifRelease(_ *Pool, m *Message) {
 	// later write is found when the object is handed out again
 	verifFill(m.bufferUnmarshal)
 	verifFill(m.origValueBuffer)
+	// the encode buffer too: bytes returned by MarshalWithEncoder belong to the message, whoever still
+	// aliases them after the release (a cache, a pending write) now holds 0xDB garbage instead of a frame
+	verifFill(m.bufferMarshal)
 	st.unmarshalP = verifFirst(m.bufferUnmarshal)
 	st.valueP = verifFirst(m.origValueBuffer)
 }
